@@ -107,3 +107,51 @@ Definition lcase_explain (cfg : deviations) (c : lcase) :=
   let refs := ref_trace (map fst (lc_ops c)) init_rst in
   (map (map show_kobs) (model_steps cfg c),
    map (fun t => map (fun k => option_map (fun r => (r_gen r, r_ctx r)) (ref_handler t k)) (lc_keys c)) refs).
+
+(* ================= outgoing calls (stream "out") ================= *)
+From PV Require Import Life.ServiceCalls.
+
+Record ocase := mk_ocase {
+  oc_site : site; oc_task_ctx : bool; oc_target : srm; oc_nargs : N; oc_nparams : N; oc_kws : list kwarg;
+  oc_res : oresult;                              (* observed at the target service / as exception in the script *)
+  oc_passed : option (bool * bool * bool)        (* observed at hass.services.async_call: context given, blocking, return_response *)
+}.
+
+Definition kwarg_eqb (a b : kwarg) : bool :=
+  N.eqb (kw_key a) (kw_key b) && N.eqb (kw_ty a) (kw_ty b) && Z.eqb (kw_val a) (kw_val b).
+Definition oresult_eqb (a b : oresult) : bool :=
+  match a, b with
+  | ODelivered d r, ODelivered d' r' => list_eqb kwarg_eqb d d' && Bool.eqb r r'
+  | OTypeError, OTypeError | OValidation, OValidation => true
+  | _, _ => false
+  end.
+
+(* the control arguments the Model hands to async_call (None: the call raises before reaching it) *)
+Definition model_passed (c : ocase) : option (bool * bool * bool) :=
+  let '(_, h) := split (oc_site c) (oc_task_ctx c) (oc_kws c) in
+  let h := match oc_site c with SiteEntity => if entity_via_helper then helper (oc_target c) h else h | _ => helper (oc_target c) h end in
+  if args_misuse (oc_site c) (oc_nargs c) (oc_nparams c) then None
+  else Some (match harg_find 1 h with Some _ => true | None => false end, harg_true (harg_find 2 h), harg_true (harg_find 3 h)).
+
+Definition passed_eqb (a b : option (bool * bool * bool)) : bool :=
+  option_eqb (fun '(x, y, z) '(x', y', z') => Bool.eqb x x' && Bool.eqb y y' && Bool.eqb z z') a b.
+
+Definition ocase_run (cfg : deviations) (c : ocase) : oresult :=
+  outgoing cfg (oc_site c) (oc_task_ctx c) (oc_target c) (oc_nargs c) (oc_nparams c) (oc_kws c).
+
+Definition ocase_model_ok (cfg : deviations) (c : ocase) : bool :=
+  oresult_eqb (ocase_run cfg c) (oc_res c) && passed_eqb (model_passed c) (oc_passed c).
+
+Definition ocase_spec_ok (c : ocase) : bool :=
+  match oc_res c with
+  | ODelivered d _ => list_eqb kwarg_eqb d (expected_data (oc_site c) (oc_nargs c) (oc_nparams c) (oc_kws c))
+  | OValidation => direct_rejects (oc_site c) (oc_target c) (oc_kws c)
+  | OTypeError => args_misuse (oc_site c) (oc_nargs c) (oc_nparams c)
+  | OOther => false
+  end.
+
+Definition ocase_attrib (cfg : deviations) (c : ocase) : list nat :=
+  if d_limit_kw cfg && negb (oresult_eqb (ocase_run cfg c) (ocase_run (switch_off 123 cfg) c)) then [123%nat] else [].
+
+Definition ocase_explain (cfg : deviations) (c : ocase) :=
+  (ocase_run cfg c, model_passed c, expected_data (oc_site c) (oc_nargs c) (oc_nparams c) (oc_kws c)).
